@@ -6,7 +6,9 @@
 // VerifySTHSignature, ctutil.VerifySCT and loglist3.NewFromSignedJSON with real keys
 // (RSA 1024/2047/2048/3072, P-224/256/384/521, DSA, Ed25519, non-key values), all algorithm
 // codes, valid signatures, single-field / single-bit mutations of the signed objects and
-// malformed DER signature values.
+// malformed DER signature values; and, for the declared algorithm identifiers, sweeps of all 256
+// hash / signature codes over signatures that are valid over the digest of the data under every
+// hash function registered in this binary (algIDStream), with tls.CreateSignature on every code.
 //
 // Everything the model treats as an oracle is measured here with the Go standard library
 // directly (hash functions, rsa.VerifyPKCS1v15, ecdsa.Verify, dsa.Verify, encoding/json) and
@@ -19,6 +21,7 @@ import (
 	"crypto"
 	"crypto/dsa" //nolint:staticcheck
 	"crypto/ecdsa"
+	"crypto/ed25519"
 	"crypto/elliptic"
 	_ "crypto/md5"
 	"crypto/rand"
@@ -852,6 +855,473 @@ func (e *emitter) verifyStream() {
 			sig[0], sig[1] = 0x30, byte(len(sig)-2)
 		}
 		e.verifyCase(k, h, a, randMsg(rnd), sig, "random:sig", "err")
+	}
+}
+
+// ---------------------------------------------------------------- declared algorithm identifiers
+//
+// Adversarial stream for the class "declared algorithm identifier outside the RFC 5246 / RFC 6962
+// set" (and "declared hash is not the hash that was signed").  A garbage signature under an
+// undefined code is rejected by almost any implementation; the case that tells a table of the
+// RFC's code points from an arithmetic / registry-driven mapping is a signature that IS
+// cryptographically valid, by the verifier's own key, over SOME digest of exactly the signed
+// bytes.  So for every undefined hash code the stream presents, made with the standard library
+// only, a valid signature over the digest of the data under EVERY hash function registered with
+// Go's crypto package in this binary (crypto.Hash(i).Available(), whatever gets linked in) and
+// over the data itself (identity "hash"); all of them must be refused, and tls.CreateSignature
+// must refuse to produce them.
+
+type digestFn struct {
+	name string
+	h    crypto.Hash // 0: the identity (the data itself is used as the digest)
+}
+
+func (d digestFn) sum(m []byte) []byte {
+	if d.h == 0 {
+		return append([]byte{}, m...)
+	}
+	return digest(d.h, m)
+}
+
+// digestFns: every hash function registered in this binary, by crypto.Hash id, then the identity
+func digestFns() []digestFn {
+	var fs []digestFn
+	for h := crypto.Hash(1); h < 64; h++ {
+		if h.Available() {
+			fs = append(fs, digestFn{strings.ReplaceAll(h.String(), "/", "_"), h})
+		}
+	}
+	return append(fs, digestFn{"identity", 0})
+}
+
+// rawSign signs a given digest with the real key using the standard library directly (this file's
+// DER writer for (r, s)).  For RSA, prefix selects the PKCS#1 v1.5 DigestInfo (0: none, the bytes
+// are signed as they are); ok=false when the library has no DigestInfo prefix for that hash or
+// the digest does not fit.  The result is checked with the library's own verification primitive.
+func rawSign(k *keyInfo, prefix crypto.Hash, dg []byte) (sig []byte, ok bool) {
+	switch p := k.priv.(type) {
+	case *rsa.PrivateKey:
+		b, err := rsa.SignPKCS1v15(rand.Reader, p, prefix, dg)
+		if err != nil {
+			return nil, false
+		}
+		if !primRSA(k, prefix, dg, b) {
+			panic("rawSign: rsa.VerifyPKCS1v15 refuses the library's own signature")
+		}
+		return b, true
+	case *ecdsa.PrivateKey:
+		r, s, err := ecdsa.Sign(rand.Reader, p, dg)
+		must(err)
+		if !primRS(k, dg, r, s) {
+			panic("rawSign: ecdsa.Verify refuses the library's own signature")
+		}
+		return derSig(r, s, nil), true
+	case *dsa.PrivateKey:
+		r, s, err := dsa.Sign(rand.Reader, p, dg)
+		must(err)
+		if !primRS(k, dg, r, s) {
+			panic("rawSign: dsa.Verify refuses the library's own signature")
+		}
+		return derSig(r, s, nil), true
+	}
+	panic("rawSign: not a signing key")
+}
+
+type sigVariant struct {
+	name string
+	sig  []byte
+	h    crypto.Hash // the hash function under whose declaration the value is valid (0: none)
+}
+
+// validOverSomeDigest: signatures by k that are valid over msg under each registered hash function
+// (and the identity).  RSA: with that hash's DigestInfo where PKCS#1 v1.5 defines one, and
+// without any DigestInfo (all of them in the thorough tier).
+func validOverSomeDigest(k *keyInfo, msg []byte, fns []digestFn, allUnprefixed bool) []sigVariant {
+	var vs []sigVariant
+	for _, f := range fns {
+		dg := f.sum(msg)
+		if k.kind != "rsa" {
+			sig, _ := rawSign(k, 0, dg)
+			vs = append(vs, sigVariant{f.name, sig, f.h})
+			continue
+		}
+		if sig, ok := rawSign(k, f.h, dg); ok {
+			vs = append(vs, sigVariant{"pkcs1-" + f.name, sig, f.h})
+		}
+		if f.h != 0 && (allUnprefixed || f.h == crypto.SHA256) {
+			if sig, ok := rawSign(k, 0, dg); ok {
+				vs = append(vs, sigVariant{"pkcs1-unprefixed-" + f.name, sig, 0})
+			}
+		}
+	}
+	return vs
+}
+
+func undefinedHashCodes() []int {
+	var cs []int
+	for c := 0; c < 256; c++ {
+		if _, ok := hashByCode[c]; !ok {
+			cs = append(cs, c)
+		}
+	}
+	return cs
+}
+
+// fit cuts or zero-extends a digest to n octets
+func fit(dg []byte, n int) []byte {
+	o := make([]byte, n)
+	copy(o, dg)
+	return o
+}
+
+// ---- sweeps: one key, one signed message, one signature value, many declared code pairs
+
+type codePair struct{ h, a int }
+
+// codeSweep: all 256 hash codes with a fixed signature code, or all 256 signature codes with a
+// fixed hash code
+type codeSweep struct {
+	overHash bool
+	fixed    int
+}
+
+func hashSweep(a int) codeSweep { return codeSweep{true, a} }
+func sigSweep(h int) codeSweep  { return codeSweep{false, h} }
+
+func (w codeSweep) pairs() []codePair {
+	var ps []codePair
+	for c := 0; c < 256; c++ {
+		if w.overHash {
+			ps = append(ps, codePair{c, w.fixed})
+		} else {
+			ps = append(ps, codePair{w.fixed, c})
+		}
+	}
+	return ps
+}
+
+func (w codeSweep) coq() string {
+	if w.overHash {
+		return fmt.Sprintf("(HashCodes %d)", w.fixed)
+	}
+	return fmt.Sprintf("(SigCodes %d)", w.fixed)
+}
+
+func (w codeSweep) String() string {
+	if w.overHash {
+		return fmt.Sprintf("hash codes 0..255 with signature code %d", w.fixed)
+	}
+	return fmt.Sprintf("signature codes 0..255 with hash code %d", w.fixed)
+}
+
+// sweep runs call (one of VerifySignature / VerifySCTSignature / VerifySTHSignature on the object
+// carrying sig and the given codes) for every pair and compares with the property's sentence
+// (expectVerify: RFC table + standard-library primitive).  mustOK: pairs under which the value is
+// valid by construction.  Returns the Coq observation (accepted pairs, panicking pairs), the
+// JSON mirror and the verdict.
+func sweep(k *keyInfo, msg, sig []byte, w codeSweep, mustOK []codePair, api, what string, call func(h, a int) error) (obs string, impl map[string]interface{}, ok bool, note string, tags []string) {
+	var oks, panics []string
+	accepted, disagreements := []interface{}{}, []interface{}{}
+	byConstruction := map[codePair]bool{}
+	for _, p := range mustOK {
+		byConstruction[p] = true
+	}
+	ok = true
+	seen := map[string]bool{}
+	for _, p := range w.pairs() {
+		p := p
+		got, emsg := guard(func() error { return call(p.h, p.a) })
+		want := expectVerify(k, p.h, p.a, msg, sig)
+		switch got {
+		case "ok":
+			oks = append(oks, fmt.Sprintf("(%d, %d)", p.h, p.a))
+			accepted = append(accepted, []int{p.h, p.a})
+		case "panic":
+			panics = append(panics, fmt.Sprintf("(%d, %d)", p.h, p.a))
+		}
+		if !seen[got] {
+			seen[got] = true
+			tags = append(tags, "impl:"+got)
+		}
+		if byConstruction[p] && want != "ok" {
+			if ok {
+				note = fmt.Sprintf("%s key=%s h=%d a=%d %s: constructed to be ok but the direct primitive says %s", api, k.name, p.h, p.a, what, want)
+			}
+			ok = false
+		}
+		if got != want {
+			if ok {
+				note = fmt.Sprintf("%s key=%s h=%d a=%d %s impl=%s want=%s", api, k.name, p.h, p.a, what, got, want)
+			}
+			ok = false
+			disagreements = append(disagreements, map[string]interface{}{"hash": p.h, "sigalg": p.a, "impl": got, "error": emsg, "want": want})
+		}
+	}
+	impl = map[string]interface{}{"calls": 256, "accepted_hash_sigalg_pairs": accepted, "panicked": len(panics), "every_other_pair": "error", "disagreements_with_the_property": disagreements}
+	return w.coq() + " " + lib.List(oks) + " " + lib.List(panics), impl, ok, note, tags
+}
+
+func (e *emitter) verifySweep(k *keyInfo, msg, sig []byte, w codeSweep, mustOK []codePair, what string, tags ...string) {
+	o := buildOracle(k, msg, sig, 0, true)
+	obs, impl, ok, note, itags := sweep(k, msg, sig, w, mustOK, "verify", what, func(h, a int) error { return tls.VerifySignature(k.pub, msg, mkDS(h, a, sig)) })
+	e.w.Add(lib.Case{
+		Coq:    fmt.Sprintf("CVerifyCodes %s %s %s %s %s", k.coq(), lib.Bytes(msg), lib.Bytes(sig), o.coq(), obs),
+		Input:  map[string]interface{}{"api": "tls.VerifySignature", "key": k.name, "msg": hx(msg), "sig": hx(sig), "what": what, "declared": w.String(), "direct": o.note},
+		Impl:   impl,
+		PropOK: ok, Note: note,
+		Tags: append(append([]string{"api:VerifySignature", "key:" + k.name, "class:" + strings.SplitN(what, ":", 2)[0]}, itags...), tags...),
+	})
+}
+
+func (e *emitter) sctSweep(k *keyInfo, s sctObj, en entryObj, w codeSweep, mustOK []codePair, what string, tags ...string) {
+	msg := rfcSCTInput(s, en)
+	o := buildOracle(k, msg, s.sig, 0, true)
+	o.withMsg = true
+	sv := ct.SignatureVerifier{PubKey: k.pub}
+	obs, impl, ok, note, itags := sweep(k, msg, s.sig, w, mustOK, "sct", what, func(h, a int) error {
+		m := s
+		m.h, m.a = h, a
+		return sv.VerifySCTSignature(m.toGo(), en.toGo())
+	})
+	e.w.Add(lib.Case{
+		Coq:    fmt.Sprintf("CSctCodes %s %s %s %s %s", k.coq(), s.coq(), en.coq(), o.coq(), obs),
+		Input:  map[string]interface{}{"api": "SignatureVerifier.VerifySCTSignature", "key": k.name, "what": what, "declared": w.String(), "timestamp": s.ts, "ext": hx(s.ext), "sig": hx(s.sig), "shape": en.shape, "cert": hx(en.cert), "signed_bytes": hx(msg), "direct": o.note},
+		Impl:   impl,
+		PropOK: ok, Note: note,
+		Tags: append(append([]string{"api:VerifySCTSignature", "key:" + k.name, "shape:" + en.shape, "class:" + strings.SplitN(what, ":", 2)[0]}, itags...), tags...),
+	})
+}
+
+func (e *emitter) sthSweep(k *keyInfo, s sthObj, w codeSweep, mustOK []codePair, what string, tags ...string) {
+	msg := rfcSTHInput(s)
+	o := buildOracle(k, msg, s.sig, 0, true)
+	o.withMsg = true
+	sv := ct.SignatureVerifier{PubKey: k.pub}
+	obs, impl, ok, note, itags := sweep(k, msg, s.sig, w, mustOK, "sth", what, func(h, a int) error {
+		m := s
+		m.h, m.a = h, a
+		return sv.VerifySTHSignature(m.toGo())
+	})
+	e.w.Add(lib.Case{
+		Coq:    fmt.Sprintf("CSthCodes %s %s %s %s", k.coq(), s.coq(), o.coq(), obs),
+		Input:  map[string]interface{}{"api": "SignatureVerifier.VerifySTHSignature", "key": k.name, "what": what, "declared": w.String(), "tree_size": s.size, "timestamp": s.ts, "root": hx(s.root[:]), "sig": hx(s.sig), "signed_bytes": hx(msg), "direct": o.note},
+		Impl:   impl,
+		PropOK: ok, Note: note,
+		Tags: append(append([]string{"api:VerifySTHSignature", "key:" + k.name, "class:" + strings.SplitN(what, ":", 2)[0]}, itags...), tags...),
+	})
+}
+
+// the codes under which a signature over the digest of hash function h is valid by construction
+func codesOf(h crypto.Hash, a int) []codePair {
+	for c, hh := range hashByCode {
+		if hh == h && h != 0 {
+			return []codePair{{c, a}}
+		}
+	}
+	return nil
+}
+
+var definedSizes = []int{16, 20, 28, 32, 48, 64} // md5 sha1 sha224 sha256 sha384 sha512
+
+func (e *emitter) algIDStream() {
+	thorough := lib.Tier() == "thorough"
+	fns := digestFns()
+	names := []string{"p256", "dsa1024", "rsa2048"}
+	if thorough {
+		names = nil
+		for _, k := range e.ks.signing {
+			names = append(names, k.name)
+		}
+	}
+	for _, kn := range names {
+		k := e.ks.byName[kn]
+		a := sigAlgOf[k.kind]
+		rnd := mrand.New(mrand.NewSource(e.rnd.Int63()))
+		msg := randBytes(rnd, 20)
+
+		// (1) every hash code 0..255 x a signature valid over each registered digest of msg: accepted
+		// under the code of that hash function if RFC 5246 has one, under no other code
+		for _, v := range validOverSomeDigest(k, msg, fns, true) {
+			e.verifySweep(k, msg, v.sig, hashSweep(a), codesOf(v.h, a), "declared-hash:valid-over-"+v.name, "algid:hash", "signed-over:"+v.name)
+		}
+		// (2) ... and over each of those digests cut / zero-extended to the size of a defined hash
+		// function (RSA: inside that function's DigestInfo): two sizes drawn per digest in the quick tier
+		for _, f := range fns {
+			dg := f.sum(msg)
+			pick := map[int]bool{rnd.Intn(len(definedSizes)): true, rnd.Intn(len(definedSizes)): true}
+			for i, n := range definedSizes {
+				if n == len(dg) || (!thorough && !pick[i]) {
+					continue
+				}
+				prefix := crypto.Hash(0)
+				if k.kind == "rsa" {
+					prefix = allHashes[i]
+				}
+				if sig, ok := rawSign(k, prefix, fit(dg, n)); ok {
+					e.verifySweep(k, msg, sig, hashSweep(a), nil, fmt.Sprintf("declared-hash:valid-over-%s-fitted-to-%d", f.name, n), "algid:hash", "signed-over:fitted")
+				}
+			}
+		}
+		// (3) every signature code 0..255 x a signature valid under a defined hash
+		h := 1 + rnd.Intn(6)
+		good, _, _ := sign(k, h, msg, false)
+		e.verifySweep(k, msg, good, sigSweep(h), []codePair{{h, a}}, "declared-sigalg:valid", "algid:sigalg")
+		// under an undefined hash code no signature code helps
+		e.verifySweep(k, msg, good, sigSweep(undefinedHashCodes()[rnd.Intn(250)]), nil, "declared-sigalg:undefined-hash", "algid:sigalg")
+	}
+
+	// (4) a key type RFC 6962 does not define, with real signatures of that key, under every code
+	rnd := mrand.New(mrand.NewSource(e.rnd.Int63()))
+	edk := e.ks.byName["ed25519"]
+	edPriv := pki.Key("ed25519", 0).(ed25519.PrivateKey)
+	msg := randBytes(rnd, 20)
+	overMsg := ed25519.Sign(edPriv, msg)
+	if !ed25519.Verify(edk.pub.(ed25519.PublicKey), msg, overMsg) {
+		panic("ed25519 self-check")
+	}
+	for _, h := range []int{4, 6, 0, 8} { // 8: "Intrinsic" in the later IANA registry
+		e.verifySweep(edk, msg, overMsg, sigSweep(h), nil, "declared-sigalg:ed25519-over-message", "algid:sigalg", "mismatch")
+	}
+	for _, f := range fns {
+		if f.h == crypto.SHA256 || f.h == crypto.SHA512 {
+			e.verifySweep(edk, msg, ed25519.Sign(edPriv, f.sum(msg)), sigSweep(4), nil, "declared-sigalg:ed25519-over-"+f.name, "algid:sigalg", "mismatch")
+		}
+	}
+	e.verifySweep(edk, msg, overMsg, hashSweep(7), nil, "declared-hash:ed25519-over-message", "algid:hash", "mismatch") // 7: ed25519 in the later IANA registry
+
+	// (5) the same through SignatureVerifier.VerifySCTSignature / VerifySTHSignature, which hand the
+	// DigitallySigned's algorithm bytes through: every hash code, signatures valid over the RFC 6962
+	// signature input under every registered digest
+	names = []string{"p256"}
+	if thorough {
+		names = []string{"p256", "rsa2048", "dsa1024", "p384"}
+	}
+	for _, kn := range names {
+		k := e.ks.byName[kn]
+		a := sigAlgOf[k.kind]
+		s := sctObj{version: 0, ts: 1500000000000 + uint64(rnd.Intn(1000000)), a: a}
+		rnd.Read(s.logID[:])
+		en := entryObj{shape: "x509", leafTS: s.ts, cert: randBytes(rnd, 40)}
+		if rnd.Intn(2) == 0 {
+			en = entryObj{shape: "precert", etype: 1, leafTS: s.ts, tbs: randBytes(rnd, 40)}
+			rnd.Read(en.ikh[:])
+		}
+		for _, v := range validOverSomeDigest(k, rfcSCTInput(s, en), fns, false) {
+			s.sig = v.sig
+			e.sctSweep(k, s, en, hashSweep(a), codesOf(v.h, a), "declared-hash:valid-over-"+v.name, "algid:hash", "signed-over:"+v.name)
+			if v.h == crypto.SHA256 {
+				e.sctSweep(k, s, en, sigSweep(4), []codePair{{4, a}}, "declared-sigalg:valid", "algid:sigalg")
+			}
+		}
+		t := sthObj{version: 0, size: uint64(rnd.Int63n(1 << 40)), ts: 1600000000000 + uint64(rnd.Intn(1000000)), a: a}
+		rnd.Read(t.root[:])
+		for _, v := range validOverSomeDigest(k, rfcSTHInput(t), fns, false) {
+			t.sig = v.sig
+			e.sthSweep(k, t, hashSweep(a), codesOf(v.h, a), "declared-hash:valid-over-"+v.name, "algid:hash", "signed-over:"+v.name)
+			if v.h == crypto.SHA256 {
+				e.sthSweep(k, t, sigSweep(4), []codePair{{4, a}}, "declared-sigalg:valid", "algid:sigalg")
+			}
+		}
+	}
+
+	e.createStream()
+}
+
+// ---- tls.CreateSignature
+
+type privInfo struct {
+	name string
+	priv crypto.PrivateKey // what is handed to tls.CreateSignature
+	kind string            // PrivRSA PrivECDSA PrivOther: the dynamic type as the type switch sees it
+	pub  *keyInfo          // the matching public key (nil: none)
+}
+
+// createCase: one call of tls.CreateSignature.  Property: whatever it returns without error
+// declares RFC 5246 code points - the hash code it was asked for, which must be a defined one,
+// and the key type's signature code - and is valid under them by the standard library's
+// primitive over the declared hash function's digest of exactly the data; it is not a panic;
+// and an RSA / ECDSA key value with a defined hash code the library can sign with is not refused.
+func (e *emitter) createCase(p privInfo, h int, msg []byte) {
+	var ds tls.DigitallySigned
+	got, emsg := guard(func() error {
+		var err error
+		ds, err = tls.CreateSignature(p.priv, tls.HashAlgorithm(h), msg)
+		return err
+	})
+	hh, defined := hashByCode[h]
+	signOK := true
+	if defined && p.pub != nil {
+		_, signOK = rawSign(p.pub, hh, digest(hh, msg))
+	}
+	dh, da := int(ds.Algorithm.Hash), int(ds.Algorithm.Signature)
+	ok, note, obs := true, "", "Err"
+	switch got {
+	case "ok":
+		obs = fmt.Sprintf("(Ok (%d, %d))", dh, da)
+		switch {
+		case !defined || dh != h:
+			ok, note = false, fmt.Sprintf("create key=%s h=%d: produced a DigitallySigned declaring hash code %d (not an RFC 5246 code point / not the one asked for)", p.name, h, dh)
+		case p.pub == nil || p.kind == "PrivOther" || da != sigAlgOf[p.pub.kind]:
+			ok, note = false, fmt.Sprintf("create key=%s h=%d: declares signature code %d for this key type", p.name, h, da)
+		case expectVerify(p.pub, dh, da, msg, ds.Signature) != "ok":
+			ok, note = false, fmt.Sprintf("create key=%s h=%d: the produced value is not valid under the declared algorithms (standard library)", p.name, h)
+		}
+	case "err":
+		if defined && p.kind != "PrivOther" && signOK {
+			ok, note = false, fmt.Sprintf("create key=%s h=%d: refused a defined hash code", p.name, h)
+		}
+	default:
+		obs, ok, note = "Panic", false, fmt.Sprintf("create key=%s h=%d: panic", p.name, h)
+	}
+	e.w.Add(lib.Case{
+		Coq:    fmt.Sprintf("CCreate %s %d %s %s", p.kind, h, lib.Bool(signOK), obs),
+		Key:    fmt.Sprintf("CCreate %s %d %s", p.name, h, obs),
+		Input:  map[string]interface{}{"api": "tls.CreateSignature", "key": p.name, "key_type": p.kind, "hash": h, "msg": hx(msg), "stdlib_can_sign": signOK},
+		Impl:   map[string]interface{}{"outcome": got, "error": emsg, "declared_hash": dh, "declared_sigalg": da, "sig": hx(ds.Signature)},
+		PropOK: ok, Note: note,
+		Tags: []string{"api:CreateSignature", "key:" + p.name, "impl:" + got, fmt.Sprintf("hash-defined:%v", defined)},
+	})
+}
+
+func (e *emitter) createStream() {
+	rnd := mrand.New(mrand.NewSource(e.rnd.Int63()))
+	msg := randBytes(rnd, 20)
+	val := func(k *keyInfo) privInfo {
+		switch p := k.priv.(type) {
+		case *rsa.PrivateKey:
+			return privInfo{k.name, *p, "PrivRSA", k}
+		case *ecdsa.PrivateKey:
+			return privInfo{k.name, *p, "PrivECDSA", k}
+		case *dsa.PrivateKey:
+			return privInfo{k.name + "-value", *p, "PrivOther", k}
+		}
+		panic("createStream: key")
+	}
+	// every hash code with an ECDSA and an RSA key value
+	names := []string{"p256", "rsa2048"}
+	if lib.Tier() == "thorough" {
+		names = []string{"p256", "rsa2048", "p384", "p521", "p224", "rsa1024", "rsa3072"}
+	}
+	for _, kn := range names {
+		p := val(e.ks.byName[kn])
+		for h := 0; h < 256; h++ {
+			e.createCase(p, h, msg)
+		}
+	}
+	// key values the type switch does not know: refused under every sampled code
+	others := []privInfo{
+		val(e.ks.byName["dsa1024"]),
+		{"rsa2048-pointer", e.ks.byName["rsa2048"].priv, "PrivOther", e.ks.byName["rsa2048"]},
+		{"p256-pointer", e.ks.byName["p256"].priv, "PrivOther", e.ks.byName["p256"]},
+		{"dsa1024-pointer", e.ks.byName["dsa1024"].priv, "PrivOther", e.ks.byName["dsa1024"]},
+		{"ed25519", pki.Key("ed25519", 0), "PrivOther", nil},
+		{"nil", nil, "PrivOther", nil},
+		{"rsa-public-value", *e.ks.byName["rsa2048"].pub.(*rsa.PublicKey), "PrivOther", nil},
+	}
+	for _, p := range others {
+		for _, h := range sampleCodes(rnd, 16) {
+			e.createCase(p, h, msg)
+		}
 	}
 }
 
@@ -1720,6 +2190,7 @@ func main() {
 	log.SetOutput(io.Discard) // the code under test logs "Garbage following signature" / WARNING lines
 	rnd := lib.Rand()
 	e := &emitter{w: lib.NewWriter(header, 150), rnd: rnd, ks: makeKeys()}
+	defer e.w.Guard()
 	e.newVerifierStream()
 	e.derStream()
 	e.verifyStream()
@@ -1727,6 +2198,7 @@ func main() {
 	e.sthStream()
 	e.utilStream()
 	e.jsonStream()
+	e.algIDStream() // last: the case ids of the streams above do not move
 	e.w.Close()
 	fmt.Printf("c05: %d cases\n", e.w.Len())
 }
